@@ -336,6 +336,16 @@ def mutatePhase (P : Params C D) (d : Nat → D) :
       | none => .error .index
       | some c => mutatePhase P d (j + 1) fuel h' (pop.set j ⟨P.metric c, e.circ⟩)
 
+/-- what `update_logs(population, iteration)` can raise (its log rows are not part of the model):
+    `list(zip(*population))[0]` / `list(zip(*self.hof))[0]` raise IndexError on an empty list, and
+    `[circuit.depth for (_, circuit) in self.hof]` raises AttributeError while the hall of fame still holds an initial
+    `(np.inf, None)` entry (e.g. whenever `n_hof > n_pop`) -/
+def updateLogs (pop : List PopEntry) (hof : List HofEntry) : Except Err Unit :=
+  if pop.isEmpty then .error .index
+  else if hof.isEmpty then .error .index
+  else if hof.any (fun e => e.circ.isNone) then .error .attribute
+  else .ok ()
+
 /-- one iteration of `for i in range(self.setting.n_stop)` -/
 def generation (P : Params C D) (cfg : Cfg) (dr : Draws D) (g : Nat) (s : St C) : Except Err (St C) :=
   match mutatePhase P (dr.mutation g) 0 cfg.nPop s.heap s.pop with
@@ -346,6 +356,9 @@ def generation (P : Params C D) (cfg : Cfg) (dr : Draws D) (g : Nat) (s : St C) 
     | .ok (h2, hof2) =>
       let tp := if cfg.useAdaptProbability then adaptProbabilities cfg.nStop cfg.nEmitter s.transProbs
                 else s.transProbs
+      match updateLogs pop1 hof2 with                                    -- self.update_logs(population, i)
+      | .error er => .error er
+      | .ok () =>
       if cfg.selectionActive then
         match tournamentSelection cfg.nPop cfg.tournamentK h2 pop1 (dr.tournament g) with
         | .error er => .error er
